@@ -113,9 +113,11 @@ func (server *SugarDB) handleCommand(ctx context.Context, message []byte, conn *
 		ctx = context.WithValue(ctx, "ConnectionName", server.connInfo.embedded.Name)
 		ctx = context.WithValue(ctx, "Protocol", server.connInfo.embedded.Protocol)
 		ctx = context.WithValue(ctx, "Database", server.connInfo.embedded.Database)
-	} else {
+	} else if !replay {
 		// The call is triggered by a TCP connection.
 		// Add TCP connection info to the context of the request.
+		// (A replayed command has no connection: its protocol and database were put into
+		// the context by the caller from the log's SELECT marker and must be kept.)
 		ctx = context.WithValue(ctx, "ConnectionName", server.connInfo.tcpClients[conn].Name)
 		ctx = context.WithValue(ctx, "Protocol", server.connInfo.tcpClients[conn].Protocol)
 		ctx = context.WithValue(ctx, "Database", server.connInfo.tcpClients[conn].Database)
